@@ -150,6 +150,13 @@ def check_relations(res, raw, tag, out, seen, case):
         if not rm.values_equal(res.cf_deg, np.asarray(res.cf_rad) * 180 / np.pi, 1e-12) or \
                 not rm.values_equal(res.cf_deg_unwrapped, np.asarray(res.cf_rad_unwrapped) * 180 / np.pi, 1e-12):
             add("pair/deg-rad", "degree and radian phases not related by 180/pi")
+        # unwrapped phases: the same angle modulo a full turn, no jump larger than half a turn between neighbouring bins
+        # (which multiple of 2*pi the curve starts from is not pinned by the property)
+        ru, rr = np.asarray(res.cf_rad_unwrapped, dtype=float), np.asarray(res.cf_rad, dtype=float)
+        fin_ = np.isfinite(ru) & np.isfinite(rr)
+        dphi = (ru - rr)[fin_] / (2 * np.pi)
+        if not (np.all(np.abs(dphi - np.round(dphi)) <= 1e-9) and (fin_.sum() < 2 or np.all(np.abs(np.diff(ru[fin_])) <= np.pi + 1e-9))):
+            add("pair/unwrap", f"cf_rad_unwrapped is not cf_rad modulo 2*pi with jumps below pi: {ru.tolist()[:6]} vs {rr.tolist()[:6]}")
         if not rm.values_equal(res.Gyx, np.conj(res.Gxy), 0) or not rm.values_equal(res.Hyx, np.conj(res.Hxy), 0):
             add("pair/conj", "Gyx/Hyx are not the conjugates of Gxy/Hxy")
         if not rm.values_equal(np.asarray(res.Hxy_deg_error), np.asarray(res.Hxy_rad_error) * 180 / np.pi, 1e-12):
@@ -177,7 +184,7 @@ def check_relations(res, raw, tag, out, seen, case):
             continue
         if not (np.shape(at) == (nf,) and rm.values_equal(np.asarray(at)[fin], vv[fin], 1e-14)):
             add(f"meas/grid", f"get_measurement at the grid frequencies != tabulated {a}")
-        if isinstance(one, np.ndarray) or (fin[0] and not rm.values_equal(one, vv[0], 1e-14)):
+        if np.ndim(one) != 0 or (fin[0] and not rm.values_equal(one, vv[0], 1e-14)):
             add(f"meas/scalar", f"scalar query of {a} at f[0] returned {one!r} (tabulated {vv[0]!r})")
         if fin[0] and not rm.values_equal(lo, vv[0], 1e-14):
             add(f"meas/clamp-low", f"{a} below the grid: {lo!r} != first value {vv[0]!r}")
